@@ -2,21 +2,23 @@
 
 from vf import evalhelp as H
 from vf import evaluators as E
+from vf import sched
 from vf.gen import expr as G
 from vf.monitors import capture, describe
 from vf.ref import logic
 
 from ahbicht.expressions.condition_expression_parser import parse_condition_expression_to_tree
 
-FRESH_HINTS = ["590", "591", "592"]
-FRESH_FCS = ["990", "991", "992"]
+FRESH_HINTS = ["590", "500", "900", "899", "700"]  # incl. both ends of the hint range
+FRESH_FCS = ["990", "999", "936", "930", "906"]  # incl. the upper end of the format-constraint range (931-935 are shipped implementations)
 
 
 def transformations(ast, rng, limit):
     """[(name, position, transformed ast, render style)] - all positions for small expressions, sampled above `limit`"""
     out = []
-    h = ["hint", rng.choice(FRESH_HINTS)]
-    f = ["fc", rng.choice(FRESH_FCS)]
+    used = {leaf[1] for leaf in G.leaves(ast)}
+    h = ["hint", rng.choice([k for k in FRESH_HINTS if k not in used])]
+    f = ["fc", rng.choice([k for k in FRESH_FCS if k not in used])]
     # T1: and a fresh hint onto the whole expression
     out.append(("T1-hint-onto-whole", (), ["and", ast, h] if rng.random() < 0.5 else ["and", h, ast], None))
     for path in G.paths(ast):
@@ -106,11 +108,14 @@ async def check_expression(ctx, case):
     # the same relations through the async API for one assignment and a few variants
     asg = rng.choice(asgs)
     expected = logic.OUTCOME[base[asgs.index(asg)]]
-    for name, path, tast, style in rng.sample(variants, min(3, len(variants))):
+    for name, path, tast, style in rng.sample(variants, min(6, len(variants))):
         ts = G.render(tast, rng, style or G.Style())
         ctx.evaluation()
         ctx.count("async_related_pairs")
-        aout = await H.async_requirement(ts, H.world_for(tast, asg))
+        scheduler = sched.Sched(sched.RandomChooser(rng)) if rng.random() < 0.7 else None
+        if scheduler is not None:
+            ctx.count("async_related_pairs_under_random_completion_order")
+        aout = await H.async_requirement(ts, H.world_for(tast, asg), scheduler)
         if aout[0] != "ok":
             ctx.violation("transformation-makes-invalid" if type(aout[1]).__name__ == "InvalidExpressionError" else f"evaluation-raises-{type(aout[1]).__name__}", f"{name}: requirement_constraint_evaluation({ts!r}) under {asg} {describe(aout)[:200]}", case=dict(case, assignments=[asg], only=[name, list(path)]))
         elif (aout[1].requirement_constraints_fulfilled, aout[1].requirement_is_conditional) != expected:
